@@ -1104,9 +1104,24 @@ def cursor_text_is_cut_byte_exactly(prog, rep, R):
     import layout
     roots = {x.split("::{closure")[0] for x in layout.CURSOR_BODIES}
     bodies = [b for b in prog.bodies.values() if b.npath.split("::{closure")[0] in roots]
+    # helpers of the reconstructor that only the cursor code calls are part of it (`multiline_tok_pos(rest)` extracted from process_cursors)
+    RECM = "pasfmt_core::defaults::reconstructor::"
+    for k in layout.helper_closure(prog, sorted(x.npath for x in prog.bodies.values() if x.npath.startswith(RECM)), sorted(roots)):
+        hb = prog.body(k)
+        if hb is not None and hb not in bodies:
+            bodies.append(hb)
     n = 0
     bad = []
     needles = {}
+    # (c) positions are byte distances on both sides: nothing in the cursor code walks a text character by character to count
+    per_char = []
+    for b in bodies:
+        for c in b.calls():
+            if (c.callee or "") in ("core::str::chars", "core::str::char_indices"):
+                per_char.append("%s:%s" % (short(b.npath), c.line))
+    rep.check(not per_char, R, "positions-are-byte-distances", "the cursor code walks token text character by character (%s): a distance counted in characters is read back as a distance in bytes by "
+              "the sibling (process_cursors stores, relocate_cursors reads), so a cursor in front of a non-ASCII character of a multi-line token is reported too far right" % per_char[:2],
+              instance={"per_character_walks": len(per_char)})
     for b in bodies:
         for c in b.calls():
             cal = c.callee or ""
